@@ -626,3 +626,92 @@ Proof.
   unfold rx_run. cbn [fold_left rx_step rx_init rx_marked rx_pending rx_accepted filter mem_bytes negb app nth_error].
   assert (E : bytes_eqb k k = true) by now apply bytes_eqb_eq. rewrite E. reflexivity.
 Qed.
+
+(* ================================================================ the in-flight set across a history of offers *)
+
+Lemma bytes_eqb_refl k : bytes_eqb k k = true.
+Proof. now apply bytes_eqb_eq. Qed.
+
+Lemma mem_bytes_eq k x l : bytes_eqb k x = true -> mem_bytes k l = mem_bytes x l.
+Proof. intros H. apply bytes_eqb_eq in H. now subst. Qed.
+
+Lemma mem_unmark k ks marked : mem_bytes k (unmark ks marked) = mem_bytes k marked && negb (mem_bytes k ks).
+Proof.
+  unfold unmark. induction marked as [|x r IH]; [reflexivity|]. cbn [filter mem_bytes].
+  destruct (bytes_eqb k x) eqn:E.
+  - rewrite (mem_bytes_eq k x ks E). destruct (mem_bytes x ks) eqn:M; cbn [negb mem_bytes orb andb].
+    + rewrite IH. rewrite (mem_bytes_eq k x ks E), M. cbn [negb]. now rewrite andb_false_r.
+    + now rewrite E.
+  - destruct (mem_bytes x ks); cbn [negb mem_bytes orb]; [exact IH | rewrite E; exact IH].
+Qed.
+
+Lemma mem_app k a b : mem_bytes k (a ++ b) = mem_bytes k a || mem_bytes k b.
+Proof. induction a as [|x a IH]; [reflexivity|]. cbn [app mem_bytes]. rewrite IH. now rewrite orb_assoc. Qed.
+
+Lemma mem_filter_marked k marked keys :
+  mem_bytes k marked = true -> mem_bytes k (filter (fun k' => negb (mem_bytes k' marked)) keys) = false.
+Proof.
+  intros H. induction keys as [|x r IH]; [reflexivity|]. cbn [filter].
+  destruct (mem_bytes x marked) eqn:M; cbn [negb]; [exact IH|]. cbn [mem_bytes]. rewrite IH, orb_false_r.
+  destruct (bytes_eqb k x) eqn:E; [|reflexivity]. rewrite (mem_bytes_eq k x marked E) in H. congruence.
+Qed.
+
+(* an event that could take the mark of k away: the end of a transfer whose accepted keys contain k *)
+Definition ends_owner (k : bytes) (s : rx_state) (e : rx_event) : bool :=
+  match e with
+  | EvTransferEnds n => match nth_error (rx_pending s) n with Some ks => mem_bytes k ks | None => false end
+  | _ => false
+  end.
+
+(* one step: a marked key stays marked unless a transfer that accepted it ends *)
+Theorem mark_preserved sync s e k :
+  mem_bytes k (rx_marked s) = true -> ends_owner k s e = false ->
+  mem_bytes k (rx_marked (rx_step sync s e)) = true.
+Proof.
+  intros M N. destruct e as [keys|n|n]; cbn [rx_step ends_owner] in *.
+  - destruct sync; cbn [rx_marked]; [rewrite mem_app, M; apply orb_true_r | exact M].
+  - destruct (nth_error (rx_pending s) n); cbn [rx_marked]; [rewrite mem_app, M; apply orb_true_r | exact M].
+  - destruct (nth_error (rx_pending s) n); cbn [rx_marked]; [|exact M]. rewrite mem_unmark, M, N. reflexivity.
+Qed.
+
+(* an OFFER that contains a marked key does not accept it *)
+Theorem marked_key_not_accepted sync s keys k :
+  mem_bytes k (rx_marked s) = true ->
+  match rx_accepted (rx_step sync s (EvOffer keys)) with acc :: _ => mem_bytes k acc = false | [] => False end.
+Proof. intros M. cbn [rx_step rx_accepted]. now apply mem_filter_marked. Qed.
+
+(* along a whole history: as long as no transfer that accepted k ends, k stays marked - whatever other offers are made,
+   accepted, started and finished in between - and therefore every later OFFER of k is answered "in progress" *)
+Fixpoint no_owner_ends (k : bytes) (sync : bool) (s : rx_state) (evs : list rx_event) : bool :=
+  match evs with
+  | [] => true
+  | e :: r => negb (ends_owner k s e) && no_owner_ends k sync (rx_step sync s e) r
+  end.
+
+Theorem mark_preserved_history sync k : forall evs s,
+  mem_bytes k (rx_marked s) = true -> no_owner_ends k sync s evs = true ->
+  mem_bytes k (rx_marked (fold_left (rx_step sync) evs s)) = true.
+Proof.
+  induction evs as [|e r IH]; intros s M N; [exact M|]. cbn [fold_left no_owner_ends] in *.
+  apply andb_true_iff in N as [N1 N2]. apply negb_true_iff in N1. apply IH; [now apply mark_preserved | exact N2].
+Qed.
+
+Theorem inflight_history_declines sync k evs s keys :
+  mem_bytes k (rx_marked s) = true -> no_owner_ends k sync s evs = true ->
+  match rx_accepted (rx_step sync (fold_left (rx_step sync) evs s) (EvOffer keys)) with
+  | acc :: _ => mem_bytes k acc = false | [] => False end.
+Proof. intros M N. apply marked_key_not_accepted. now apply mark_preserved_history. Qed.
+
+(* and the mark does go away when the transfer it belongs to ends (the key can be offered again) *)
+Theorem mark_cleared_at_end sync s n ks k :
+  nth_error (rx_pending s) n = Some ks -> mem_bytes k ks = true ->
+  mem_bytes k (rx_marked (rx_step sync s (EvTransferEnds n))) = false.
+Proof. intros H M. cbn [rx_step]. rewrite H. cbn [rx_marked]. rewrite mem_unmark, M. apply andb_false_r. Qed.
+
+(* the three-offer scenario of the harness: O1 accepts K and stalls; O2 = [K; L] is answered [in progress; accepted] and
+   completes; O3 = [K] is still answered in progress; after O1 has ended, O4 = [K] is accepted again *)
+Theorem three_offer_scenario :
+  rx_accepted (rx_run false [EvOffer [[x01]]; EvGoroutineRuns 0; EvOffer [[x01]; [x02]]; EvGoroutineRuns 1;
+                             EvTransferEnds 1; EvOffer [[x01]]; EvTransferEnds 0; EvOffer [[x01]]])
+  = [[[x01]]; []; [[x02]]; [[x01]]].
+Proof. vm_compute. reflexivity. Qed.
